@@ -7,6 +7,9 @@ Further bounds theorems live with the kernels' own models and are re-exported
 at the end of this file.
 -/
 import NipyVerif.Model.C20
+import NipyVerif.Props.C09
+import NipyVerif.Props.C13
+import NipyVerif.Props.C16
 import Mathlib.Tactic.Ring
 import Mathlib.Tactic.Linarith
 
@@ -134,6 +137,32 @@ theorem guardedNeighbour_in_bounds (size : Nat) (pos : Int) (p : Nat)
   unfold guardedNeighbour at h
   split_ifs at h with hg
   · cases h; omega
+
+/-! ### Bounds theorems of the kernels' own models, restated as C20 obligations
+(the statements are those of Props/C09, C13, C16; re-proved here by reference so that
+the C20 audit covers them). -/
+
+/-- joint_histogram.c: the inside test makes all eight neighbour reads of the padded
+    target image land inside it. -/
+theorem joint_histogram_neighbours_in_bounds (V : C09.Vol) (v : C09.Vox) (h : C09.inside V v) :
+    ∀ p ∈ C09.neighbours V v, p.1 < V.size := C09.neighbours_in_bounds V v h
+
+/-- joint_histogram.c: every histogram write (PV / TRI / RAND) lands inside
+    `[0, clampI*clampJ)`. -/
+theorem joint_histogram_writes_in_bounds (m : C09.Mode) (V : C09.Vol) (clampI clampJ : Nat)
+    (stale : Int) (v : C09.Vox) (u : Rat)
+    (hI : v.i < (clampI : Int)) (hJ : ∀ q, V.get q < (clampJ : Int)) (hu0 : 0 ≤ u) (hu1 : u < 1) :
+    ∀ d ∈ C09.voxDeps m V clampJ stale v u, 0 ≤ d.1 ∧ d.1 < ((clampI * clampJ : Nat) : Int) :=
+  C09.deposit_in_histogram m V clampI clampJ stale v u hI hJ hu0 hu1
+
+/-- mrf.c `ve_step`: a neighbour position passing the flat-index test has all its `K`
+    class entries inside the posterior map. -/
+theorem mrf_neighbour_in_bounds (g : C13.Grid) (pos : Int) (h : C13.posOk g pos = true) (kk : Nat)
+    (hk : kk < g.K) : pos.toNat + kk < g.size := C13.ve_step_pos_in_bounds g pos h kk hk
+
+/-- cubic_spline.c: every mirrored grid coordinate is inside `[0, ddim]`. -/
+theorem cubic_spline_mirror_in_bounds (x : Int) (ddim : Nat) :
+    C16.mirroredPosition x ddim ≤ ddim := C16.mirror_index_in_range x ddim
 
 /-! ### non-vacuity -/
 example : InShape [2, 3, 4] [1, 2, 3] ∧ ravel [2, 3, 4] [1, 2, 3] = 23 := by decide
